@@ -86,7 +86,9 @@ func (st *State) ptrTo(elem types.Type, a string) Val {
 	case *types.Slice:
 		return Val{K: KLoc, Loc: &Loc{Heap: "mem.slice", Idx: a, Addr: a, Typ: elem}}
 	case *types.Array:
-		return Val{K: KLoc, Loc: &Loc{Heap: "mem.arr." + memKey(u.Elem()), Idx: a, Addr: a, Typ: elem}}
+		// standalone arrays are flat: element i lives in mem.<key> at a + i*size (same view as a slice of it)
+		_ = u
+		return Val{K: KLoc, Loc: &Loc{Heap: "mem.flatarr", Idx: a, Addr: a, Typ: elem}}
 	}
 	return Val{K: KLoc, Loc: &Loc{Heap: "mem." + memKey(elem), Idx: a, Addr: a, Typ: elem}}
 }
@@ -270,8 +272,9 @@ func (st *State) binop(op token.Token, x, y Val, xt, yt, rt types.Type, xv, yv s
 			return IntV(fmt.Sprintf("(div %s %s)", a, pow2(int(k))))
 		}
 	case token.AND:
-		// x & (2^k-1)  = x mod 2^k ; x & 2^k = bit test
-		if isUnsigned(rt) {
+		// x & (2^k-1)  = x mod 2^k ; x & 2^k = bit test (also valid for two's-complement signed values:
+		// SMT div/mod are floor/non-negative, matching arithmetic shift and masking)
+		{
 			for _, sw := range []struct {
 				c ssa.Value
 				o string
@@ -286,7 +289,7 @@ func (st *State) binop(op token.Token, x, y Val, xt, yt, rt types.Type, xv, yv s
 				}
 			}
 			// x & ^(2^k): clear bit k  (SSA shows the complement as a constant)
-			if c, ok := yv.(*ssa.Const); ok && c.Value != nil {
+			if c, ok := yv.(*ssa.Const); ok && c.Value != nil && isUnsigned(rt) {
 				if u, ok := constant.Uint64Val(c.Value); ok {
 					inv := ^u
 					if bits < 64 {
@@ -454,6 +457,11 @@ func (st *State) execInstr(in ssa.Instruction) {
 		elem := x.Type().(*types.Pointer).Elem()
 		a := st.alloc("alloc."+x.Comment, fmt.Sprint(st.g.P.sizeof(elem)))
 		p := st.ptrTo(elem, a)
+		if arr, isArr := elem.Underlying().(*types.Array); isArr {
+			st.zeroRegion(arr.Elem(), a, fmt.Sprint(arr.Len()))
+			st.fr.regs[x] = p
+			break
+		}
 		st.derefStore(p, elem, st.zero(elem))
 		if p.K == KLoc {
 			delete(st.written, p.Loc.Heap)
@@ -484,6 +492,14 @@ func (st *State) execInstr(in ssa.Instruction) {
 			st.boundsCheck(iv.T, fmt.Sprint(arr.Len()), "array index")
 			l := st.asLoc(xv, u.Elem())
 			sz := st.g.P.sizeof(arr.Elem())
+			if l.Heap == "mem.flatarr" {
+				a := fmt.Sprintf("(+ %s %s)", l.Addr, mulC(iv.T, sz))
+				if c, ok := isConstInt(x.Index); ok {
+					a = addOff(l.Addr, c*sz)
+				}
+				st.fr.regs[x] = st.ptrTo(arr.Elem(), a)
+				break
+			}
 			addr := ""
 			if l.Addr != "" {
 				addr = fmt.Sprintf("(+ %s (* %s %d))", l.Addr, iv.T, sz)
@@ -667,7 +683,9 @@ func (st *State) sliceOp(x *ssa.Slice) Val {
 		if ptr == "" {
 			ptr = st.g.fresh("arrptr", "Int")
 		}
-		st.g.note("slicing an array: the slice aliases a flat copy of the array (array/slice views not unified)")
+		if l.Heap != "mem.flatarr" {
+			st.g.note("slicing an array-typed struct field: the slice aliases a flat copy of the array (views not unified)")
+		}
 		ln, cp = fmt.Sprint(arr.Len()), fmt.Sprint(arr.Len())
 		elem = arr.Elem()
 	case *types.Basic: // string
@@ -710,6 +728,12 @@ func mapHeaps(mt *types.Map) (string, types.Type) {
 }
 
 func (st *State) mapGet(mt *types.Map, m, k string) (Val, string) {
+	return st.mapGet2(mt, m, k, true)
+}
+
+// mapGet2: withDefault=false returns the raw stored value (unspecified for absent keys); used by specs, which
+// always guard reads with has().
+func (st *State) mapGet2(mt *types.Map, m, k string, withDefault bool) (Val, string) {
 	hn, vt := mapHeaps(mt)
 	has := st.cur(hn+"#has", "(Array Int (Array Int Bool))")
 	present := fmt.Sprintf("(select (select %s %s) %s)", has, m, k)
@@ -718,7 +742,11 @@ func (st *State) mapGet(mt *types.Map, m, k string) (Val, string) {
 		var fs []Val
 		for _, suf := range []string{"#ptr", "#len", "#cap"} {
 			h := st.cur(hn+suf, "(Array Int (Array Int Int))")
-			fs = append(fs, IntV(ite(present, fmt.Sprintf("(select (select %s %s) %s)", h, m, k), "0")))
+			raw := fmt.Sprintf("(select (select %s %s) %s)", h, m, k)
+			if withDefault {
+				raw = ite(present, raw, "0")
+			}
+			fs = append(fs, IntV(raw))
 		}
 		st.assume(fmt.Sprintf("(and (<= 0 %s) (<= %s %s))", fs[1].T, fs[1].T, fs[2].T))
 		v = Val{K: KSlice, Fs: fs}
@@ -727,7 +755,9 @@ func (st *State) mapGet(mt *types.Map, m, k string) (Val, string) {
 		h := st.cur(hn+"#val", "(Array Int (Array Int "+es+"))")
 		raw := fmt.Sprintf("(select (select %s %s) %s)", h, m, k)
 		v = st.scalar(vt, raw)
-		v.T = ite(present, raw, st.zero(vt).T)
+		if withDefault {
+			v.T = ite(present, raw, st.zero(vt).T)
+		}
 	}
 	return v, present
 }
